@@ -61,6 +61,10 @@ fn err_str(e: &SegmentError) -> String {
 		SegmentError::MissingHash(p) => format!("err:missinghash:{}", p),
 		SegmentError::NonExistent => "err:nonexistent".to_string(),
 		SegmentError::Mismatch => "err:mismatch".to_string(),
+		// an error kind this harness does not know (a variant added to the code under test) must not
+		// stop the harness from building: it is reported as what it is and compared like any other
+		#[allow(unreachable_patterns)]
+		other => format!("err:unknown-kind:{:?}", other).replace(' ', "_"),
 	}
 }
 
